@@ -6,6 +6,8 @@ open Panqec Panqec.Sweep
 
   lattice spec  : `<T3|P3|RP3|RT3> Lx Ly Lz`
   decoder       : `s3` (SweepDecoder3D) | `s3old` (assignment update) | `rot` (RotatedSweepDecoder3D)
+                  | `rotold` (flip table / initial state before the seam repair; `sw.flip`, `sw.table`,
+                  `sw.init` only)
   location      : `x,y,z`
   signs         : bit string (`-` = empty)
   correction    : `x,y,z:P;x,y,z:P` in dict order (`-` = empty)
@@ -67,7 +69,15 @@ def parseLattice? (code lx ly lz : String) : Option Lattice :=
 
 /-- tabulate the lattice once so that repeated `contains`/`stabOp` calls are cheap -/
 def facesOf (dec : String) (lat : Lattice) : Loc → Option (List Loc) :=
-  if dec == "rot" then flipFacesRot lat else flipFaces3D lat
+  if dec == "rot" then flipFacesRot lat
+  else if dec == "rotold" then oldFlipFacesRot lat
+  else flipFaces3D lat
+
+/-- the rows that count as face rows for the decoder: type `'face'` (rotated, as repaired) or
+    not in `z_indices` -/
+def isRotDec (dec : String) : Bool := dec == "rot"
+
+def showLoc3 (t : Loc × Loc × Loc) : String := s!"{showLoc t.1};{showLoc t.2.1};{showLoc t.2.2}"
 
 def showState (st : State) : String := s!"{showBits st.signs} {showCorr st.corr}"
 
@@ -99,10 +109,19 @@ def handleSweep : List String → Option String
       | some pp => showCorr (site op pp l)
       | none => "ERR spec"
     | _, _, _ => "ERR spec"
-  | ["sw.init", code, lx, ly, lz, syn] =>
+  | ["sw.init", dec, code, lx, ly, lz, syn] =>
     some <| match parseLattice? code lx ly lz with
-    | some lat => showBits (initialState lat (parseBits syn))
+    | some lat =>
+      showBits (if isRotDec dec then initialStateRot lat (parseBits syn) else initialState lat (parseBits syn))
     | none => "ERR spec"
+  | ["sw.wrap", code, lx, ly, lz, loc] =>
+    some <| match parseLattice? code lx ly lz, parseLoc? loc with
+    | some lat, some l => showLoc (wrapRot lat l)
+    | _, _ => "ERR spec"
+  | ["sw.sweep", code, lx, ly, lz, v, sd] =>
+    some <| match parseLattice? code lx ly lz, parseLoc? v, parseLoc? sd with
+    | some lat, some vv, some d => s!"{showLoc3 (sweepFacesRot lat vv d)} {showLoc3 (sweepEdgesRot lat vv d)}"
+    | _, _, _ => "ERR spec"
   | ["sw.move", dec, code, lx, ly, lz, sd, signs, corr, ds] =>
     some <| match parseLattice? code lx ly lz, parseCorr? corr with
     | some lat, some op =>
@@ -136,12 +155,14 @@ def handleSweep : List String → Option String
   | ["sw.table", dec, code, lx, ly, lz] =>
     some <| match parseLattice? code lx ly lz with
     | some lat =>
-      let bad := flipTableBad lat (facesOf dec lat)
+      let bad := if isRotDec dec || dec == "rotold" then flipTableBadRot lat (facesOf dec lat)
+                 else flipTableBad lat (facesOf dec lat)
       s!"{bad.length}/{lat.qubits.length} {";".intercalate (bad.map showLoc)}"
     | none => "ERR spec"
-  | ["sw.facehas", code, lx, ly, lz, loc] =>
+  | ["sw.facehas", dec, code, lx, ly, lz, loc] =>
     some <| match parseLattice? code lx ly lz, parseLoc? loc with
-    | some lat, some l => showBits (lat.stabs.map fun s => faceHas lat s l)
+    | some lat, some l =>
+      showBits (lat.stabs.map fun s => if isRotDec dec then faceHasRot lat s l else faceHas lat s l)
     | _, _ => "ERR spec"
   | _ => none
 
